@@ -47,7 +47,7 @@ def run_one(program):
 
 
 def strategy():
-    return gen_prog.program(sparse_rate=4)
+    return gen_prog.program(sparse_rate=4, locked_rate=10)
 
 
 def still_fails(sig):
